@@ -423,11 +423,18 @@ func (ms *Modules) Process() []error {
 // include resolves all the include and import statements for m.  It returns
 // an error if m, or recursively, any of the modules it includes or imports,
 // reference a module that cannot be found.
-func (ms *Modules) include(m *Module) error {
+func (ms *Modules) include(m *Module) (err error) {
 	if ms.includes[m] {
 		return nil
 	}
 	ms.includes[m] = true
+	defer func() {
+		if err != nil {
+			// Not done: try again on the next run, the missing
+			// module may have been loaded by then.
+			delete(ms.includes, m)
+		}
+	}()
 
 	// First process any includes in this module.
 	for _, i := range m.Include {
